@@ -4,6 +4,7 @@ generator towards the property).  Each ./check invocation rebuilds the harness a
 import hashlib
 import json
 import os
+import time
 from collections import Counter
 
 import vlib
@@ -23,6 +24,7 @@ MONITOR = {11: 'a (source, destination, sequence) triple was accepted twice',
            12: 'a rejected message changed state',
            20: 'a packet receipt disappeared or changed',
            21: 'an accepted receive did not write the (previously absent) receipt of its triple',
+           24: 'a commitment is not the sha256 of the packet bytes the packet contract emitted (PacketSent log) in the accepted transaction',
            13: 'nextSequenceSend / commitments changed in a way not explained by the sends of the step (gap, repeat, wrong hash)',
            14: 'packet contract send counter differs from the chain-side counter',
            15: 'accepted receive addressed to this chain did not write exactly one new acknowledgement',
@@ -33,7 +35,7 @@ MONITOR = {11: 'a (source, destination, sequence) triple was accepted twice',
            19: 'an accepted receive / acknowledgement was not verified by the counterparty client for the recomputed (path, value)',
            22: 'a rejected message changed balances / bindings',
            6: 'malformed case'}
-KINDS = {'C01': {11, 12, 20, 21, 22, 6}, 'C02': {19, 12, 22, 6}, 'C04': {13, 14, 12, 22, 6}, 'C05': {15, 16, 17, 18, 23, 6}}
+KINDS = {'C01': {11, 12, 20, 21, 22, 6}, 'C02': {19, 12, 22, 6}, 'C04': {13, 14, 24, 12, 22, 6}, 'C05': {15, 16, 17, 18, 23, 6}}
 # what the self-named-client witness (hypothesis O7) is expected to break on the real code
 O7_EXPECT = {'C04': {13}, 'C05': {13, 17, 18}, 'C01': set(), 'C02': set()}
 
@@ -94,13 +96,9 @@ def t_act(tk, a, cls, err=''):
         return '(ARecv (mkRecv %s %s %s %s) %s)' % (cb(tk(a['packet'])), cb(tk(a['proof'])), t_height(a['height']),
                                                     cb(tk(a['signer'])), t_cb(tk, c))
     if t == 'ack':
+        # which module->contract call fails is an INPUT of the model (environment's choice); for a rejected ack the
+        # harness takes it from a dry run of the three calls on a throw-away branch (a['cbs'][i]['fail'])
         cbs = [dict(c) for c in a['cbs']]
-        # which module->contract call failed is an INPUT of the model (environment's choice); for a rejected ack it is
-        # only visible in the error text of the real run
-        if cls != 0 and 'contract call failed' in err:
-            for i, m in enumerate(('setAckStatus', 'sendPacketFeeToRelayer', 'OnAcknowledgePacket')):
-                if ("method '%s'" % m) in err:
-                    cbs[i]['fail'] = True
         return '(AAck (mkAckMsg %s %s %s %s %s) %s %s %s)' % (
             cb(tk(a['packet'])), cb(tk(a['ack'])), cb(tk(a['proof'])), t_height(a['height']), cb(tk(a['signer'])),
             t_cb(tk, cbs[0]), t_cb(tk, cbs[1]), t_cb(tk, cbs[2]))
@@ -153,9 +151,10 @@ def case_term(c):
         i = st['chain']
         cseq = coq_list(['(%s, %s)' % (cb(tk(d)), N(n)) for d, n in nums(o.get('cseq') or [])])
         acks = coq_list(['((%s, %s), %s)' % (cb(tk(d)), N(q), N(s)) for d, q, s in (o.get('ackstatus') or []) if str(s).isdigit()])
-        steps.append('(mkOStep %d%%nat %s %s %d%%nat %s %s %s %s)' % (
+        emitted = coq_list([cb(tk(x)) for x in (st['act'].get('raw') or [])] if o['class'] == 0 else [])
+        steps.append('(mkOStep %d%%nat %s %s %d%%nat %s %s %s %s %s)' % (
             i, N(st['env']), t_act(tk, st['act'], o['class'], o.get('err', '')), o['class'], delta(prev[i], o['store']),
-            coq_bool(o['unchanged']), cseq, acks))
+            coq_bool(o['unchanged']), cseq, acks, emitted))
         prev[i] = o['store']
     orc = c['oracles']
     dec = coq_list(['(%s, (%s, %s))' % (cb(tk(e['bz'])), t_packet(tk, e['pkt']), coq_bool(e['err'])) for e in orc['decode']])
@@ -198,41 +197,61 @@ def python_side(results):
 SHARD = 4
 
 
-def evaluate(workdir, results, tag='cases'):
-    """-> (mismatches, monitor_failures) lists of (case, step, kind), or (None, log)"""
+def evaluate(workdir, results, tag='cases', workers=12):
+    """-> (mismatches, monitor_failures) lists of (case, step, kind), or (None, log).  A shard whose coqc run died without
+    a Coq error (killed under memory pressure, timeout) is retried, alone, up to two more times."""
     shards = [results[i:i + SHARD] for i in range(0, len(results), SHARD)]
 
-    def one(ix):
-        i, sh = ix
+    def attempt(i, sh):
         defs = 'Definition cases : list pcase := %s.\n' % coq_list([case_term(r) for r in sh])
         res = vlib.coq_eval_lists(workdir, '%s_%d.v' % (tag, i), HEADER, defs,
                                   [('M', 'mismatches cases'), ('F', 'monitor_failures cases')])
         m = vlib.parse_nat_tuples(res.get('M'), 3)
         f = vlib.parse_nat_tuples(res.get('F'), 3)
         if res['_rc'] != 0 or m is None or f is None:
-            return ('error', res['_out'][-3000:])
+            return ('error', res['_out'][-3000:], 'Error' in res['_out'])
         off = i * SHARD
         return ([(h + off, s, k) for h, s, k in m], [(h + off, s, k) for h, s, k in f])
 
-    outs = vlib.parallel(one, list(enumerate(shards)), workers=12)
+    def one(ix):
+        i, sh = ix
+        r = attempt(i, sh)
+        return r if r[0] != 'error' else ('retry', i)
+
+    outs = vlib.parallel(one, list(enumerate(shards)), workers=workers)
     mm, ff = [], []
     for o in outs:
-        if o[0] == 'error':
-            return None, o[1]
+        if o[0] == 'retry':
+            i = o[1]
+            r = None
+            for wait in (2, 10):
+                time.sleep(wait)
+                r = attempt(i, shards[i])
+                if r[0] != 'error' or r[2]:
+                    break
+            if r[0] == 'error':
+                return None, r[1]
+            o = r
         mm += o[0]
         ff += o[1]
     pm, pf = python_side(results)
     return mm + pm, ff + pf
 
 
-def run_generated(workdir, seed, n, steps, focus, procs=8, tag='gen'):
-    per = max(1, (n + procs - 1) // procs)
-    jobs = [(a, min(n, a + per)) for a in range(0, n, per)]
+def run_generated(workdir, seed, n, steps, focus, procs=8, tag='gen', lo=0, hi=None):
+    """cases lo..hi-1 of the n cases of this (seed, focus); a harness process that was killed is re-run once"""
+    hi = n if hi is None else hi
+    per = max(1, (hi - lo + procs - 1) // procs)
+    jobs = [(a, min(hi, a + per)) for a in range(lo, hi, per)]
 
     def one(j):
         a, b = j
         out = os.path.join(workdir, '%s_%d.jsonl' % (tag, a))
-        rc, o = vlib.run_harness('packet', ['-seed', seed, '-n', n, '-steps', steps, '-focus', focus, '-from', a, '-to', b, '-out', out])
+        args = ['-seed', seed, '-n', n, '-steps', steps, '-focus', focus, '-from', a, '-to', b, '-out', out]
+        rc, o = vlib.run_harness('packet', args)
+        if rc not in (0, 2):        # 2 = the harness itself reports a failure; anything else: killed / crashed
+            time.sleep(3)
+            rc, o = vlib.run_harness('packet', args)
         return rc, o, out
 
     res = vlib.parallel(one, jobs, workers=procs)
@@ -241,6 +260,7 @@ def run_generated(workdir, seed, n, steps, focus, procs=8, tag='gen'):
         if rc != 0:
             return None, o[-3000:]
         results += vlib.read_jsonl(out)
+        os.remove(out)
     return results, ''
 
 
@@ -282,60 +302,304 @@ def op_of_step(result, step):
         return st['op']
     return None
 
+# ---------------------------------------------------------------------------------------------------------------
+# Self-test of the monitors: the observed trace of a corpus case is falsified in one way per monitor kind; the monitor
+# of that kind must fire on it.  Guards against a monitor going blind (a renamed key family, a record field that is
+# no longer filled): a monitor that cannot fail proves nothing.
+
+def _hex(s):
+    return s.encode().hex()
+
+
+def _drop_key(r, chain, frm, pred):
+    """remove the first key satisfying pred from the observed stores of `chain` in steps frm.. (and the final dump)"""
+    key = None
+    for st in r['steps'][frm:]:
+        if st['chain'] != chain:
+            continue
+        for kv in st['obs']['store']:
+            if key is None and pred(kv[0]):
+                key = kv[0]
+        if key is not None:
+            st['obs']['store'] = [kv for kv in st['obs']['store'] if kv[0] != key]
+    if key is not None:
+        r['final'][chain]['store'] = [kv for kv in r['final'][chain]['store'] if kv[0] != key]
+    return key
+
+
+def _new_keys(r, i, prefix):
+    """keys with the prefix that step i added to its chain's store"""
+    st = r['steps'][i]
+    before = None
+    for j in range(i - 1, -1, -1):
+        if r['steps'][j]['chain'] == st['chain']:
+            before = {kv[0] for kv in r['steps'][j]['obs']['store']}
+            break
+    if before is None:
+        before = {kv[0] for kv in r['chains'][st['chain']]['store']}
+    return [kv[0] for kv in st['obs']['store'] if kv[0].startswith(_hex(prefix)) and kv[0] not in before]
+
+
+def selftest_cases(kinds, guards, multi):
+    """-> list of (expected kind, falsified result).  guards = result of corpus case 3, multi = of corpus case 2"""
+    import copy
+    out = []
+
+    def steps(r, t, cls, pred=lambda st: True):
+        return [i for i, st in enumerate(r['steps']) if st['act']['t'] == t and st['obs']['class'] == cls and pred(st)]
+
+    def add(kind, base, f):
+        if kind not in kinds or base is None:
+            return
+        r = copy.deepcopy(base)
+        if f(r):
+            out.append((kind, r))
+
+    def dup_of_accepted(r, t):
+        """rejected steps of kind t that repeat, on the same chain, the packet bytes of an earlier ACCEPTED step"""
+        seen, c = set(), []
+        for i, st in enumerate(r['steps']):
+            if st['act']['t'] != t:
+                continue
+            k = (st['chain'], st['act']['packet'])
+            if st['obs']['class'] == 0:
+                seen.add(k)
+            elif k in seen:
+                c.append(i)
+        return c
+
+    def m11(r):
+        c = dup_of_accepted(r, 'recv')
+        if not c:
+            return False
+        r['steps'][c[0]]['obs']['class'] = 0
+        return True
+
+    def m12(r):
+        c = steps(r, 'recv', 1)
+        if not c:
+            return False
+        r['steps'][c[0]]['obs']['unchanged'] = False
+        return True
+
+    def drop_old(prefix):
+        def f(r):
+            acc = steps(r, 'recv', 0)
+            if len(acc) < 2:
+                return False
+            i = acc[-1]
+            ch = r['steps'][i]['chain']
+            new = set(_new_keys(r, i, prefix))
+            return _drop_key(r, ch, i, lambda k: k.startswith(_hex(prefix)) and k not in new) is not None
+        return f
+
+    def drop_new(prefix):
+        def f(r):
+            for i in steps(r, 'recv', 0):
+                new = _new_keys(r, i, prefix)
+                if new:
+                    return _drop_key(r, r['steps'][i]['chain'], i, lambda k: k == new[0]) is not None
+            return False
+        return f
+
+    def m17(r):
+        acc = steps(r, 'ack', 0)
+        if not acc:
+            return False
+        i = acc[0]
+        others = [st['act']['packet'] for st in r['steps'] if st['act']['t'] == 'recv' and st['obs']['class'] == 0
+                  and st['act']['packet'] != r['steps'][i]['act']['packet']]
+        if not others:
+            return False
+        r['steps'][i]['act']['packet'] = others[-1]
+        return True
+
+    def m18(r):
+        c = dup_of_accepted(r, 'ack')
+        if not c:
+            return False
+        r['steps'][c[-1]]['obs']['class'] = 0
+        return True
+
+    def m19(r):
+        acc = steps(r, 'recv', 0)
+        if not acc:
+            return False
+        env = r['steps'][acc[0]]['env']
+        for e in r['oracles']['verify']:
+            if e['env'] == env:
+                e['low'] = False
+        return True
+
+    def m23(r):
+        for i, st in enumerate(r['steps']):
+            if st['act']['t'] == 'block' and i > 0:
+                ch = st['chain']
+                k = _hex('acks/selftest/x/sequences/1')
+                for st2 in r['steps'][i:]:
+                    if st2['chain'] == ch:
+                        st2['obs']['store'] = sorted(st2['obs']['store'] + [[k, '00']])
+                r['final'][ch]['store'] = sorted(r['final'][ch]['store'] + [[k, '00']])
+                return True
+        return False
+
+    def m13(r):
+        c = steps(r, 'send', 0, lambda st: len(st['act'].get('sends') or []) > 1)
+        if not c:
+            return False
+        a = r['steps'][c[0]]['act']
+        a['sends'], a['raw'] = a['sends'][:1], (a.get('raw') or [])[:1]
+        return True
+
+    def m14(r):
+        c = steps(r, 'send', 0, lambda st: any(str(v).isdigit() for _, v in st['obs'].get('cseq') or []))
+        if not c:
+            return False
+        cs = r['steps'][c[0]]['obs']['cseq']
+        for e in cs:
+            if str(e[1]).isdigit():
+                e[1] = str(int(e[1]) + 1)
+                return True
+        return False
+
+    def m24(r):
+        c = steps(r, 'send', 0, lambda st: st['act'].get('raw'))
+        if not c:
+            return False
+        raw = r['steps'][c[0]]['act']['raw']
+        raw[0] = raw[0][:-2] + ('00' if raw[0][-2:] != '00' else '01')
+        return True
+
+    add(11, guards, m11)
+    add(12, guards, m12)
+    add(20, guards, drop_old('receipts/'))
+    add(21, guards, drop_new('receipts/'))
+    add(15, guards, drop_new('acks/'))
+    add(16, guards, drop_old('acks/'))
+    add(17, guards, m17)
+    add(18, guards, m18)
+    add(19, guards, m19)
+    add(23, guards, m23)
+    add(13, multi, m13)
+    add(14, multi, m14)
+    add(24, multi, m24)
+    return out
+
+
+def by_o7(results, h):
+    return h < len(results) and bool(results[h]['spec'].get('o7'))
+
+
+def monitor_selftest(workdir, kinds, guards, multi):
+    """-> (dict kind -> fired?, error log or None)"""
+    cases = selftest_cases(kinds, guards, multi)
+    if not cases:
+        return {}, None
+    mm, ff = evaluate(workdir, [r for _, r in cases], tag='selftest', workers=4)
+    if mm is None:
+        return {}, ff
+    fired = {}
+    for i, (k, _) in enumerate(cases):
+        fired[k] = any(h == i and kk == k for h, _, kk in ff)
+    return fired, None
+
 
 def check(run, prop):
     focus = prop.lower()
     kinds = KINDS[prop]
-    run.proof_stage()
+    # Model/PacketCheck.v (mismatches / monitors evaluated below) is not in the dependency cone of Props/: build it too
+    run.proof_stage(extra_modules=['theories/Model/PacketCheck.v'])
+    if not run.quick():
+        run.coqchk_stage()
     ok, out = vlib.build_harness(['packet'])
     if not ok:
         run.violation(dict(kind='harness-build-failed', log=out[-3000:],
                            explanation='the correspondence harness no longer builds against /repo'), no_input=True)
         return run.finish()
-    n = run.budget(40, 400)
+    n = run.budget(40, 320)
     steps = run.budget(30, 60)
-    results, err = run_generated(run.work, run.seed, n, steps, focus)
-    if results is None:
-        run.violation(dict(kind='harness-crashed', log=err), no_input=True)
-        return run.finish()
-    mm, ff = evaluate(run.work, results)
-    if mm is None:
-        run.violation(dict(kind='coq-evaluation-failed', log=ff), no_input=True)
-        return run.finish()
-
-    # ---- coverage (measured) ----
+    chunk = 40                      # cases per round: bounds the memory of the glue and of the parallel coqc runs
+    workers = run.budget(12, 8)
+    light = {}                      # case -> what is needed after the evaluation (spec, per step: op index, error text)
+    mm, ff = [], []
     dist = Counter()
     nontrivial = set()
-    nsteps = 0
-    for r in results:
-        for k, v in (r.get('stats') or {}).items():
-            if isinstance(v, int) and not k.startswith('ms_') and not k.startswith('n_') and not k.startswith('pool_'):
-                dist[k] += v
-        for st in r['steps']:
-            nsteps += 1
-            a = st['act']
-            if a['t'] in ('recv', 'ack', 'send'):
-                key = a.get('packet') or json.dumps(a.get('sends'))
-                nontrivial.add(hashlib.sha1((a['t'] + str(st['obs']['class']) + key + a.get('proof', '')[:64]).encode()).hexdigest())
-    o7_cases = [i for i, r in enumerate(results) if r['spec'].get('o7')]
-    top = dict(sorted(dist.items(), key=lambda kv: -kv[1])[:60])
+    by_client = Counter()
+    nsteps = multi = 0
+    o7_cases = []
+    samples = []
+    for lo in range(0, n, chunk):
+        results, err = run_generated(run.work, run.seed, n, steps, focus, lo=lo, hi=min(n, lo + chunk))
+        if results is None:
+            run.violation(dict(kind='harness-crashed', log=err), no_input=True)
+            return run.finish()
+        m1, f1 = evaluate(run.work, results, tag='cases%d' % lo, workers=workers)
+        if m1 is None:
+            run.violation(dict(kind='coq-evaluation-failed', log=f1), no_input=True)
+            return run.finish()
+        mm += [(h + lo, s_, k) for h, s_, k in m1]
+        ff += [(h + lo, s_, k) for h, s_, k in f1]
+        if lo == 0 and not m1 and not [f for f in f1 if f[2] in kinds and not by_o7(results, f[0])]:
+            # the monitors of this property must fire on falsified copies of the corpus traces
+            by_idx = {r['spec']['case']: r for r in results}
+            fired, serr = monitor_selftest(run.work, kinds - {6, 22}, by_idx.get(3), by_idx.get(2))
+            run.coverage['monitor_selftest'] = {str(k): v for k, v in sorted(fired.items())}
+            blind = sorted(k for k, v in fired.items() if not v)
+            missing = sorted((kinds - {6, 22}) - set(fired))
+            run.coverage['monitor_selftest_not_exercised'] = missing
+            if serr is not None or blind:
+                run.violation(dict(kind='monitor-selftest-failed', blind_monitors=blind, not_exercised=missing, log=serr or '',
+                                   explanation='a monitor of this property did not fire on a trace falsified for it: the '
+                                               'check machinery can no longer detect that kind of violation',
+                                   broken='monitors of Model/PacketCheck.v'), name='replay_selftest.json', no_input=True)
+                return run.finish()
+        # ---- coverage (measured) ----
+        for ci, r in enumerate(results):
+            light[lo + ci] = dict(spec=r['spec'], steps=[dict(op=st.get('op'), err=st['obs'].get('err', '')) for st in r['steps']])
+            if r['spec'].get('o7'):
+                o7_cases.append(lo + ci)
+            if len(samples) < 2:
+                samples.append(r['spec'])
+            for k, v in (r.get('stats') or {}).items():
+                if isinstance(v, int) and not k.startswith('ms_') and not k.startswith('n_') and not k.startswith('pool_'):
+                    dist[k] += v
+            ver = {e['env']: e for e in r['oracles']['verify']}
+            for st in r['steps']:
+                nsteps += 1
+                a = st['act']
+                if a['t'] in ('recv', 'ack', 'send'):
+                    key = a.get('packet') or json.dumps(a.get('sends'))
+                    nontrivial.add(hashlib.sha1((a['t'] + str(st['obs']['class']) + key + a.get('proof', '')[:64]).encode()).hexdigest())
+                if a['t'] == 'send' and len(a.get('sends') or []) > 1:
+                    multi += 1
+                # accepted receives / acknowledgements by the kind of light client that verified them
+                if a['t'] in ('recv', 'ack') and st['obs']['class'] == 0 and st['env'] in ver:
+                    nm = bytes.fromhex(ver[st['env']]['client']).decode('latin1')
+                    kind = nm.split('-')[0] if nm[:4] in ('tss-', 'eth-', 'bsc-') else 'tendermint'
+                    by_client['%s.%s' % (a['t'], kind)] += 1
+        del results
+    top = dict(sorted(dist.items(), key=lambda kv: -kv[1])[:80])
     run.coverage.update(dict(
-        evaluations=nsteps, histories=len(results), distinct_nontrivial=len(nontrivial),
-        rule='relay histories on 3 real chains (Tendermint light clients, IAVL proofs, BaseApp.Deliver, real EVM contracts); '
+        evaluations=nsteps, histories=len(light), distinct_nontrivial=len(nontrivial),
+        rule='relay histories on 3 real chains (Tendermint light clients + IAVL proofs, TSS clients, Ethereum and BSC light clients '
+             'over harness-built MPT worlds; BaseApp.Deliver, real EVM contracts); '
              'one evaluation = one recorded step (message / EVM transaction / block) compared with the model and checked by the '
              'monitors; non-trivial = recv/ack/send steps, distinct by (kind, outcome, packet bytes, proof prefix)',
         distribution=top, model_mismatches=len(mm), monitor_failures_incl_o7_witness=len([f for f in ff if f[2] in kinds]),
-        o7_witness_cases=o7_cases,
-        samples=[results[i]['spec'] for i in range(min(2, len(results)))]))
+        o7_witness_cases=o7_cases, accepted_by_verifying_client=dict(sorted(by_client.items())),
+        transactions_with_several_sends=multi, corpus_cases_run_first=[0, 1, 2, 3, 4],
+        samples=samples))
     run.coverage['trusted_base'] += [
         'hand-written model Model/Packet.v tied to x/xibc (msg_server, packet keeper, EVM hook) by this differential run on real '
         'chains; the generator bounds what it sees',
         'key builders: format terms regenerated from x/xibc/core/host/keys.go (tools/gotocoq/keys, C19 key library)',
         'oracles (tabulated from the real functions on the arguments of each case): go-ethereum ABI codec + encoding/json '
-        '(Packet/Acknowledgement ABIDecode/ABIPack), crypto/sha256, light-client VerifyPacketCommitment/Acknowledgement, bech32, '
-        'strings.EqualFold; the EVM byte code of the packet/endpoint contracts (callback outcomes are inputs observed from events)',
-        'cosmos-sdk BaseApp.runMsgs / ethermint ApplyTransaction atomicity (modelled by `step`; validated by full xibc+evm+bank '
-        'store hashes around every rejected message)']
+        '(Packet/Acknowledgement ABIDecode/ABIPack), crypto/sha256, light-client VerifyPacketCommitment/Acknowledgement (Tendermint, '
+        'TSS, ETH, BSC; each answer cross-checked by a recomputation that bypasses the client code: ICS-23 VerifyMembership / '
+        'trie.VerifyProof for the slot the property names), bech32, strings.EqualFold; the EVM byte code of the packet/endpoint '
+        'contracts (callback outcomes and the PacketSent logs of a transaction are inputs observed from logs/events)',
+        'cosmos-sdk BaseApp.runMsgs / ethermint ApplyTransaction atomicity (modelled by `step` / `step_tx`; validated by full '
+        'xibc+evm+bank store hashes around every rejected message; one message per delivered transaction)']
     run.assumptions += [
         'client look-up by name abstracts GetClientState: no other key of a client store ends in "/clientState"',
         'C04 and C05.ack_processed_once: no client is registered under the chain\'s own name (observation O7; necessity proved in '
@@ -366,8 +630,8 @@ def check(run, prop):
 
     def truncated(h, s):
         # cut the abstract history after the op that produced the failing step
-        sp = dict(results[h]['spec'])
-        op = op_of_step(results[h], s)
+        sp = dict(light[h]['spec'])
+        op = light[h]['steps'][s]['op'] if s < len(light[h]['steps']) else None
         if op is not None:
             sp['ops'] = sp['ops'][:op + 1]
         return sp
@@ -379,10 +643,10 @@ def check(run, prop):
         reported.add(h)
         sp = truncated(h, s)
         if not fails_monitor(sp):
-            sp = results[h]['spec']
+            sp = light[h]['spec']
         small = shrink(run.work, sp, fails_monitor, budget=8)
         run.violation(dict(kind='monitor', code=k, what=MONITOR.get(k), spec=small, failing_step=s,
-                           observed=results[h]['steps'][s]['obs'].get('err', '') if s < len(results[h]['steps']) else ''),
+                           observed=light[h]['steps'][s]['err'] if s < len(light[h]['steps']) else ''),
                       name='replay_h%d.json' % h)
         if len(run.violations) >= 2:
             break
@@ -390,7 +654,7 @@ def check(run, prop):
         for h, s, k in mm[:1]:
             sp = truncated(h, s)
             if not fails_model(sp):
-                sp = results[h]['spec']
+                sp = light[h]['spec']
             small = shrink(run.work, sp, fails_model, budget=8)
             run.violation(dict(kind='correspondence', code=k, what=MISMATCH.get(k), spec=small, failing_step=s,
                                explanation='Model/Packet.v no longer describes the packet core of /repo; the theorems of '
